@@ -196,18 +196,6 @@ def run_C12(ctx):
         assumptions=COMMON_ASSUME + ["states with a pending cross-thread free (remote_free not yet followed by a collect of that heap) only require that no live block is missing; extra reports and used counts are outside the statement there",
                                      "the abandoned-walk runs set MIMALLOC_VISIT_ABANDONED=1 (required by the API) and, where stated, MIMALLOC_MAX_SEGMENT_RECLAIM=0 so that several abandoned segments coexist"])
 
-def run_C10(ctx):
-    q = ctx.quick
-    pr = [] if q else ["--prune"]
-    plan = [
-        ("rel", "P4h", "S0", 5 if q else 7, ["--observe", "owner,walk"] + pr, {}), ("rel", "P4h", "S4", 4 if q else 6, ["--observe", "owner,walk"] + pr, {}),
-        ("rel", "P4h", "S1", 4 if q else 5, ["--observe", "owner"], {}), ("rel", "P4h", "S3", 4 if q else 5, ["--observe", "owner"], {}),
-        ("dbg", "P4h", "S0", 4 if q else 6, ["--observe", "owner,walk"] + pr, {}), ("sec", "P4h", "S0", 4 if q else 6, ["--observe", "owner"] + pr, {}),
-    ]
-    return seq_property(ctx, plan,
-        rule="sequential part: all sequences over {heap_new (2 slots), heap_malloc(h,8K/48), malloc (default heap), free(i), heap_delete(h), heap_destroy(h), set_default(h), collect(1)} up to depth D; model: blocks carry a heap id, delete relabels to the backing heap, destroy removes exactly that heap's blocks, deleting the default heap falls back to the backing heap; node oracle: all live blocks intact, mi_heap_contains_block/mi_heap_check_owned true for exactly the model's heap, heap walks agree with the model.",
-        assumptions=COMMON_ASSUME)
-
 OPTS13 = [
     ("MIMALLOC_PURGE_DELAY", ["-1", "0", "5"]), ("MIMALLOC_PURGE_DECOMMITS", ["0", "1"]), ("MIMALLOC_EAGER_COMMIT", ["0", "1"]),
     ("MIMALLOC_EAGER_COMMIT_DELAY", ["0", "1"]), ("MIMALLOC_ARENA_EAGER_COMMIT", ["0", "1", "2"]), ("MIMALLOC_DISALLOW_ARENA_ALLOC", ["0", "1"]),
@@ -329,7 +317,119 @@ def run_C18(ctx):
         rule="scenario enumeration with the virtual clock: {what becomes unused: a 1 MiB page inside a live segment, a whole (huge) segment, everything} x {later activity: free another page of the segment, allocate in the segment, alloc+free a 40 MiB block, mi_collect(false), small fast-path traffic (negative control)} x {purge_delay -1/0/5/10} x {decommit, reset} x {arena_purge_mult 1, 10} x {arenas on, off, small}. Oracle from the shim's call log: delay 0 -> the freed range is covered by madvise/munmap before the freeing call returns; delay d>0 -> no purge of the range before the clock passes d (d*mult for whole segments) whatever happens, and after it has passed the activities that reach a purge point (page: free of another page; segment: any arena free or non-forced collect) return the range without a forced collect; delay -1 -> no purge call at all, even under mi_collect(true).",
         assumptions=COMMON_ASSUME + ["time is the shim's virtual clock", "allocating inside a segment re-arms its purge delay by design, so that activity is recorded as a control only"])
 
+# ------------------------------------------------------------------------------------------------
+# schedule exploration (h_conc, built with -DVF_SCHED): C02, C08, C09, C10 (concurrent part), C14
+# ------------------------------------------------------------------------------------------------
+def conc_jobs(ctx, plan, harness="h_conc"):
+    """plan: list of (variant, prog or ("family", lo, hi), bound, sbound, env)"""
+    jobs = []
+    for (variant, prog, bound, sbound, env) in plan:
+        b = ctx.build(harness, variant, sched=True)
+        if isinstance(prog, tuple): pa = ["--family-lo", prog[1], "--family-hi", prog[2]]; pn = f"family[{prog[1]}:{prog[2]})"
+        else: pa = ["--prog", prog]; pn = prog
+        args = ["--prop", ctx.pid] + pa + ["--bound", bound, "--sbound", sbound, "--par", 16, "--deadline", ctx.deadline or (150 if ctx.quick else 2400)]
+        tag = f"{variant}/{pn}/b{bound}s{sbound}" + ("/" + ",".join(f"{k.replace('MIMALLOC_','').lower()}={v}" for k, v in env.items()) if env else "")
+        jobs.append(dict(bin=b, args=args, env=env, tag=tag, timeout=(400 if ctx.quick else 3000)))
+    return jobs
+
+def conc_property(ctx, jobs, rule, assumptions, extra_jobs=()):
+    tot, samples, viol, infra, per_run, dl = agg_runs(ctx, list(jobs) + list(extra_jobs), parallel=2, sample_limit=8)
+    ex = sum(r["extra"].get("executions", 0) for r in per_run)
+    cps = sum(r["extra"].get("choice_points", 0) for r in per_run)
+    ops = sum(r["extra"].get("instrumented_ops", 0) for r in per_run)
+    outc = sum(r["extra"].get("distinct_outcomes", 0) for r in per_run)
+    bmin = min([r["extra"].get("bound_completed", 0) for r in per_run if "bound_completed" in r["extra"]] or [0])
+    cov = dict(
+        evaluations=ex + (tot["nodes"] - ex if tot["nodes"] > ex else 0), distinct_nontrivial=max(outc, 0),
+        states=max(outc, 1), transitions=max(cps, 1), traces_validated_against_impl=tot["nodes"],
+        rule=rule + " states = number of distinct execution outcomes (hash of what every thread observed: returned addresses, result codes and the state of its heap when it finished), summed over programs; transitions = scheduling decisions taken at choice points; every execution is a run of the real allocator under the token scheduler, so all explored schedules are validated against the implementation by construction.",
+        samples=samples, exhaustive=not dl, executions=ex, choice_points=cps, instrumented_operations=ops, min_bound_completed=bmin,
+        oracle_checks=tot["checks"], runs=per_run,
+        explanation="stateless exploration (iterative context bounding): for each preemption bound 0..B every schedule with at most that many preemptions (and at most S spurious weak-CAS failures) is executed in a fresh forked process; operations on addresses that only one thread touches are fused with the next operation, the conflict set is re-validated after every pass and the pass repeated until it is stable")
+    if dl: cov["deadline_hit"] = True
+    return dict(coverage=cov, assumptions=assumptions, violations=viol, infra=infra)
+
+SCHED_ASSUME = [
+    "sequentially consistent interleavings at the granularity of mimalloc's C11 atomic operations, mutex operations and spin-loop yields (weak-memory reorderings are outside this technique)",
+    "preemption-bounded: schedules with more preemptions than the completed bound are not covered; spin-loop yields: the first 6 consecutive yields of a thread are ordinary choice points, afterwards the thread is descheduled until another thread made a step",
+    "plain (non-macro) stores to _Atomic fields are not scheduling points; statistics counters are silent",
+    "2-4 threads with 1-3 operations each; blocks are handed between threads through shared slots of the harness",
+]
+RF = {"MIMALLOC_ABANDONED_RECLAIM_ON_FREE": "1"}
+NOARENA = {"MIMALLOC_DISALLOW_ARENA_ALLOC": "1"}
+
+def run_C02(ctx):
+    q = ctx.quick
+    B = 2
+    plan = [("rel", p, B, 1, {}) for p in ("H1", "H2", "H3", "H4", "H5", "D1")] + [("rel", "E5", B, 1, RF), ("rel", "E1", B, 1, RF)]
+    plan += [("dbg", "H2", 1 if q else 2, 1, {}), ("sec", "H3", 1 if q else 2, 1, {})]
+    if q: plan += [("rel", ("family", 0, 700, ), 1, 0, {})]
+    else: plan += [("rel", ("family", 0, 750), 2, 1, {}), ("rel", "H2", 3, 2, {}), ("rel", "H3", 3, 2, {}), ("rel", "H1", 3, 2, {}), ("rel", "H5", 3, 2, {}), ("dbg", "H5", 2, 1, {}), ("sec", "H2", 2, 1, {})]
+    return conc_property(ctx, conc_jobs(ctx, plan),
+        rule="programs: H1 (remote frees into a page with free blocks vs owner malloc through fast and generic path), H2 (page in the full queue: first remote free goes to the heap's delayed list, second to the page list, vs owner collect+malloc, 3 threads), H3 (two full pages, frees racing the owner's delayed-free take-over), H4 (huge block freed remotely vs owner collect/alloc), H5 (last blocks of a full page freed remotely and locally), D1 (heap delete vs frees), E1/E5 (frees into abandoned segments with reclaim-on-free), and a generated family: every program with 2 threads x 2 ops or 3 threads x 1 op over {malloc 8K, free a, free b, collect(0), collect(1)} on two shared blocks of one full page (750 programs). All interleavings up to the preemption bound (quick 2; family 1) with up to 1 spurious weak-CAS failure. Oracle: a block leaves the live set immediately before its free call and enters it after malloc returns; every returned range must be disjoint from all live blocks; every live block's full usable range must hold its pattern after every operation of every thread; no crash, assertion or error callback.",
+        assumptions=COMMON_ASSUME[:2] + SCHED_ASSUME)
+
+def run_C08(ctx):
+    q = ctx.quick
+    plan = [("rel", p, 2, 1, {}) for p in ("H2", "H3", "H5", "D1", "D3")] + [("rel", "PC", 2 if q else 3, 0, {})]
+    plan += [("dbg", "H2", 1 if q else 2, 1, {})]
+    if q: plan += [("rel", ("family", 0, 700), 1, 0, {})]
+    else: plan += [("rel", ("family", 0, 750), 2, 1, {}), ("rel", "H2", 3, 1, {}), ("rel", "H3", 3, 2, {}), ("sec", "H3", 2, 1, {})]
+    return conc_property(ctx, conc_jobs(ctx, plan),
+        rule="A (nothing lost): programs H2, H3, H5, D1, D3 and the generated family (see C02): after the explored phase every remaining block is freed, the owner runs mi_heap_collect(heap, true) and then its heap must hold no page (page_count == 0 and no area with used > 0). B (no blow-up): producer/consumer PC: rounds of 8 blocks of 8 KiB (one page), the producer starts round r only after the consumer freed round r-2, six rounds, the owner never collects; the number of pages held by the owner after each round must stay <= 5 (3 pages of live/in-flight blocks + warm-up page + one retired page) in every interleaving (a stuck page per round gives >= 7).",
+        assumptions=COMMON_ASSUME[:2] + SCHED_ASSUME + ["PC sets generic_count=99 before each round so that the administrative step that mimalloc performs every 100 generic allocations happens once per round (time compression of a long run)", "the no-blow-up clause is checked for six rounds"])
+
+def run_C09(ctx):
+    q = ctx.quick
+    ALL = {"MIMALLOC_DISALLOW_ARENA_ALLOC": "1", "MIMALLOC_ABANDONED_RECLAIM_ON_FREE": "1", "MIMALLOC_VISIT_ABANDONED": "1"}
+    plan = []
+    for env in ({}, RF, NOARENA, ALL):
+        for p in ("E1", "E4", "E5"): plan.append(("rel", p, 2, 1 if not q else 0, env))
+        plan.append(("rel", "E2", 2, 0, env))
+    plan += [("rel", "E3", 1 if q else 2, 0, {}), ("rel", "E3", 1 if q else 2, 0, RF), ("dbg", "E1", 1 if q else 2, 0, RF), ("dbg", "E5", 1 if q else 2, 0, RF)]
+    if not q: plan += [("rel", "E1", 3, 1, RF), ("rel", "E5", 3, 1, RF), ("sec", "E1", 2, 1, RF), ("dbg", "E3", 2, 0, NOARENA), ("rel", "E3", 2, 0, ALL)]
+    return conc_property(ctx, conc_jobs(ctx, plan),
+        rule="programs E1 (thread exit vs remote free of one of its blocks vs an allocation that may adopt), E2 (two segments left by finished threads; two threads allocate and free into them and may both adopt), E3 (forced abandonment through mi_collect_reduce with two segments vs remote frees into both), E4 (as E1 with the allocating thread in another sub-process), E5 (two remote frees into one abandoned segment, then both freeing threads allocate) x configurations {arena segments, OS segments (arenas disabled), reclaim-on-free on/off, visit_abandoned}. Oracle: blocks of the terminated thread keep their contents and can be freed by others; anything handed out after adoption is disjoint from all live blocks (two adopters would hand out the same memory); at the end, after all blocks are freed, all threads ended and the main thread force-collected, no arena block is in use or marked abandoned, the abandoned count is 0 and no segment-sized OS mapping is left.",
+        assumptions=COMMON_ASSUME[:2] + SCHED_ASSUME + ["thread exit is the explicit mi_thread_done() call; the pthread-key destructor later finds the heap already released"])
+
+def run_C10(ctx):
+    q = ctx.quick
+    pr = [] if q else ["--prune"]
+    plan = [
+        ("rel", "P4h", "S0", 5 if q else 7, ["--observe", "owner,walk"] + pr, {}), ("rel", "P4h", "S4", 4 if q else 6, ["--observe", "owner,walk"] + pr, {}),
+        ("rel", "P4h", "S1", 4 if q else 5, ["--observe", "owner"], {}), ("rel", "P4h", "S3", 4 if q else 5, ["--observe", "owner"], {}),
+        ("dbg", "P4h", "S0", 4 if q else 6, ["--observe", "owner,walk"] + pr, {}), ("sec", "P4h", "S0", 4 if q else 6, ["--observe", "owner"] + pr, {}),
+    ]
+    cplan = [("rel", p, 2, 1, {}) for p in ("D1", "D2", "D3")] + [("dbg", "D1", 1 if q else 2, 0, {}), ("sec", "D3", 1 if q else 2, 0, {})]
+    if not q: cplan += [("rel", "D1", 3, 1, {}), ("rel", "D3", 3, 1, {}), ("rel", "D2", 3, 1, {})]
+    res = conc_property(ctx, conc_jobs(ctx, cplan),
+        rule="sequential part: all sequences over {heap_new (2 slots), heap_malloc(h,8K/48), malloc (default heap), free(i), heap_delete(h), heap_destroy(h), set_default(h), collect(1)} up to depth D from start states S0/S1/S3/S4; model: blocks carry a heap id, delete relabels to the backing heap, destroy removes exactly that heap's blocks, deleting the default heap falls back to the backing heap; node oracle: all live blocks intact, mi_heap_contains_block / mi_heap_check_owned true for exactly the model's heap, heap walks agree with the model. Concurrent part: D1 (mi_heap_delete of a heap with a full page while two other threads free blocks of it), D2 (mi_heap_collect forced / not forced + allocation vs remote frees), D3 (delete of a heap with two full pages vs frees into both): every interleaving up to the preemption bound; oracle: no crash, live blocks intact, and after everything is freed and the owner collected its backing heap holds no page (a free that landed on the deleted heap's list would be lost).",
+        assumptions=COMMON_ASSUME + SCHED_ASSUME, extra_jobs=seq_jobs(ctx, plan))
+    return res
+
+def run_C14(ctx):
+    q = ctx.quick
+    P0 = {"MIMALLOC_PURGE_DELAY": "0"}
+    plan = [("rel", "A1", 2, 1, {}), ("rel", "A3", 2, 1, {}), ("rel", "A2", 2, 1, {}), ("rel", "A2", 2, 1, P0), ("rel", "A1", 2, 0, P0), ("dbg", "A3", 1 if q else 2, 0, {}), ("dbg", "A2", 1 if q else 2, 0, P0)]
+    if not q: plan += [("rel", "A1", 3, 1, {}), ("rel", "A3", 3, 2, {}), ("rel", "A2", 3, 1, P0), ("sec", "A2", 2, 1, P0)]
+    bjobs = conc_jobs(ctx, [("rel", "B1", 3 if q else 6, 0, {}), ("rel", "B2", 2 if q else 3, 0, {}), ("rel", "B3", 2 if q else 3, 0, {})], harness="h_bitmap") if os.path.exists(os.path.join(ctx.verif, "harness", "h_bitmap.c")) else []
+    return conc_property(ctx, conc_jobs(ctx, plan) + bjobs,
+        rule="arena seam (real _mi_arena_alloc_aligned / _mi_arena_free / _mi_arenas_collect on a private exclusive arena): A1 (70-block arena with 60 blocks taken: three threads claim 5, 4 and 3 blocks so that claims cross the bitmap word boundary and compete, two free again), A3 (a cross-word claim loses its final word to a competing claim and rolls back its initial word while a third thread frees other blocks of that word), A2 (arena free -- which schedules or performs a purge -- racing allocations that may take the same blocks, plus a collector after a clock tick), with purge delay default and 0. Oracle: successful claims are pairwise disjoint and inside the arena; the first and last 64 KiB of every claimed range keep their pattern (a purge racing a claim would zero it); at quiescence the in-use bitmap holds only the left-over bits and the whole arena can be allocated in one piece.",
+        assumptions=COMMON_ASSUME[:2] + SCHED_ASSUME)
+
 PROPS = {
+    "C02": dict(level="model_checking", run=run_C02, replay=replay_file, engine="schedule-explorer",
+        technique="stateless model checking of the implementation: preemption-bounded exhaustive enumeration of thread interleavings (with bounded spurious weak-CAS failures) under a deterministic token scheduler over every atomic operation",
+        text="Every schedule of each small program up to the completed preemption bound runs on the real allocator; ownership (overlap), contents of live blocks and crash-freedom are checked after every operation of every thread.",
+        note="trusted: scheduler (engine/vf_sched.c), private-address fusion argument (re-validated every pass), harness model; sequential consistency"),
+    "C08": dict(level="model_checking", run=run_C08, replay=replay_file, engine="schedule-explorer",
+        technique="stateless model checking of the implementation: preemption-bounded exhaustive enumeration of interleavings of remote frees with the owner's malloc/free/collect, with a quiescence oracle (heap empty) and a page-count oracle (producer/consumer)",
+        text="Every schedule up to the bound is executed; afterwards all blocks are freed, the owner force-collects and its heap must be empty; the producer/consumer program bounds the owner's page count in every interleaving.",
+        note="trusted: scheduler, harness; 'however long it runs' is covered for six rounds with time compression of the 100-allocation administrative cycle"),
+    "C09": dict(level="model_checking", run=run_C09, replay=replay_file, engine="schedule-explorer",
+        technique="stateless model checking of the implementation: preemption-bounded exhaustive enumeration of interleavings of thread exit, remote frees, adopting allocations, forced abandonment and collects, under arena/OS-segment and reclaim-on-free configurations",
+        text="Every schedule up to the bound runs on the real allocator; survival of the terminated thread's blocks, single adoption (no double hand-out) and release of the memory at the end are checked.",
+        note="trusted: scheduler, harness, OS shim for the final leak check"),
     "C07": dict(level="fault_enumeration", run=run_C07, replay=replay_file, engine="os-shim",
         technique="exhaustive fault enumeration: every position of the OS-call sequence of each workload fails once / persistently (thorough: all pairs) on the real allocator, with the reference-model oracle running throughout",
         text="Every single-fault and persistent-fault plan over the whole OS call sequence of 8 workloads and several option settings is executed on the implementation in release, secure and debug builds; crash-freedom, NULL-or-valid results, intact live blocks and full recovery/quiescence are checked on each.",
@@ -342,8 +442,12 @@ PROPS = {
         technique="exhaustive enumeration of purge scenarios (what becomes unused x later activity x option configuration) on the real allocator under a virtual clock, judged from the OS call log",
         text="Every scenario of the product is executed; the call log decides whether the unused range was returned too early, in time by ordinary activity, or never.",
         note="trusted: OS shim (virtual clock, call log); scenarios are a finite product, not all histories"),
+    "C14": dict(level="model_checking", run=run_C14, replay=replay_file, engine="schedule-explorer",
+        technique="stateless model checking of the implementation: preemption-bounded exhaustive enumeration of interleavings of concurrent arena claims, frees and purges (real arena code on a private arena; bitmap functions directly on small bitmaps)",
+        text="Every schedule up to the bound is executed on the real arena/bitmap code; disjointness, containment, data integrity under concurrent purge and complete re-allocatability are checked.",
+        note="trusted: scheduler, harness"),
     "C10": dict(level="model_checking", run=run_C10, replay=replay_file, engine="seq-explorer",
-        technique="bounded exhaustive exploration of heap create/allocate/delete/destroy/set_default sequences on the real allocator against a heap-labelled reference model (concurrent part: schedule explorer)",
+        technique="bounded exhaustive exploration of heap create/allocate/delete/destroy/set_default sequences against a heap-labelled reference model, plus preemption-bounded exhaustive schedule exploration of heap delete/collect racing remote frees, both on the real allocator",
         text="Every sequence of the heap alphabet up to depth D from four start states, in release/debug/secure builds; at every node block ownership queries and heap walks must agree with the model and all live blocks must be intact.",
         note="trusted: harness model; the concurrent clause (delete/collect racing remote frees) is decided by the schedule explorer harness when present"),
     "C12": dict(level="model_checking", run=run_C12, replay=replay_file, engine="seq-explorer",
